@@ -134,6 +134,17 @@ class BoundMethod:
         return 'BoundMethod(%r.%s)' % (self.obj, self.name)
 
 
+class MaybeBound:
+    """a local variable that is assigned inside a loop and was unbound when
+    the loop was entered: at the head of an arbitrary iteration it is bound
+    iff `flag` holds (definite-assignment tracking through loops)"""
+    def __init__(self, flag, val):
+        self.flag, self.val = flag, val
+
+    def __repr__(self):
+        return 'MaybeBound(%s, %r)' % (self.flag, self.val)
+
+
 class Unknown:
     _n = itertools.count()
 
@@ -906,6 +917,25 @@ class Executor:
         """value equal to a when c holds, else b; None if not mergeable"""
         if a is b:
             return a
+        if isinstance(a, MaybeBound) or isinstance(b, MaybeBound) or \
+                a is UNBOUND or b is UNBOUND:
+            def parts(v):
+                if v is UNBOUND:
+                    return z3.BoolVal(False), None, False
+                if isinstance(v, MaybeBound):
+                    return v.flag, v.val, True
+                return z3.BoolVal(True), v, True
+            fa, va, ha = parts(a)
+            fb, vb, hb = parts(b)
+            if ha and hb:
+                mv = va if va is vb else self.merge_values(st, c, va, vb)
+                if mv is None and not (va is None and vb is None):
+                    # values that do not merge keep the paths apart (the
+                    # precise value matters to the frame obligations)
+                    return None
+            else:
+                mv = va if ha else vb
+            return MaybeBound(z3.simplify(z3.If(c, fa, fb)), mv)
         if isinstance(a, Ref) and isinstance(b, Ref):
             return a if a.oid == b.oid else None
         if isinstance(a, Ext) and isinstance(b, Ext):
@@ -1066,6 +1096,13 @@ class Executor:
                 v = fr[name]
                 if v is UNBOUND:
                     raise PyRaise('UnboundLocalError', name)
+                if isinstance(v, MaybeBound):
+                    d = self.decide(st, v.flag)
+                    if d is True:
+                        return v.val
+                    if d is False:
+                        raise PyRaise('UnboundLocalError', name)
+                    raise NeedFork(v.flag)
                 return v
             f = st.parent.get(f)
         g = self.lib.module_global(self, st, self.modname, name)
